@@ -948,6 +948,8 @@ class Engine:
             return st.env[node.id]
         if node.id in ("True", "False"):
             return BoolV(node.id == "True")
+        if node.id == "NotImplemented":
+            return ObjV("NotImplemented", {})
         const = self.module_constant(node.id)
         if const is not None:
             return const
@@ -1000,6 +1002,11 @@ class Engine:
             return base.fields[node.attr]
         if isinstance(base, ObjV) and base.cls == "type":
             return ObjV("attr", {"of": base, "name": node.attr})
+        if node.attr == "__class__":
+            if isinstance(base, SeqV) and base.kind == "Perm":
+                return ObjV("type", {"name": "Perm"})
+            if isinstance(base, ObjV) and base.cls in self.repo.classes:
+                return ObjV("type", {"name": base.cls})
         raise Unsupported(f"attribute .{node.attr} of {base!r}")
 
     def ev_UnaryOp(self, node, st):
